@@ -46,32 +46,34 @@ M1_ASSUME = ['the correspondence run reproduces quiescent (class S0) schedules o
              'ws layer delivers handler calls as the fake does (E1-E6 of DESIGN.md 4.3a)']
 M1_RULE = 'corpus of finding witnesses first, then seeded random histories (4-46 events) of send (valid/invalid) / reply (matching, foreign, queued, other client) / timer expiry / write failure on-off / disconnect / reconnect / stop / start on the real ocpp1.6 and ocpp2.0.1 endpoints of both roles, queue capacities 0..10, 1-3 clients on the server; a case counts when its encoding is distinct and has more than 3 integers'
 
-def scenario_extra(kind, scen, what, quick=4, thorough=40):
-    """a real-socket scenario of tools/cmd/harness/c19.go run as a monitor of this property: every run must end with [1 ..]"""
+def scenario_extra(*lanes, quick=4, thorough=40):
+    """real-socket / gated scenarios of tools/cmd/harness/{c19,gated}.go run as monitors of this property: every run must end with [1 ..].
+    lanes: (kind, scenario number, description)"""
     def f(prop, b, tier, seed):
         import os, subprocess
-        res = {'obligations': 0, 'discharged': 0, 'violations': [], 'broken': [], 'coverage': {}}
+        res = {'obligations': 0, 'discharged': 0, 'violations': [], 'broken': [], 'coverage': {'scenario_lanes': []}}
         if not b.go_ok:
             return res
         root = os.path.dirname(os.path.dirname(os.path.abspath(__file__)))
         n = thorough if tier == 'thorough' else quick
-        inp = os.path.join(root, 'build', 'run', '%s.scenario%d.in' % (prop.id, scen))
-        os.makedirs(os.path.dirname(inp), exist_ok=True)
-        seeds = [seed * 100 + i for i in range(n)]
-        open(inp, 'w').write(''.join('c19: %d %d 0\n' % (scen, sd) for sd in seeds))
-        try:
-            out = subprocess.run([os.path.join(root, 'build', 'harness'), 'c19', '-replay', inp], stdout=subprocess.PIPE, stderr=subprocess.DEVNULL,
-                                 timeout=180 * n).stdout.decode('utf-8', 'replace').strip().split('\n')
-        except subprocess.TimeoutExpired:
-            out = []
-        bad = 0
-        for i, sd in enumerate(seeds):
-            o = out[i].strip() if i < len(out) else '?'
-            if not o.startswith('1'):
-                bad += 1
-                res['violations'].append({'entry': 'c19', 'kind': kind, 'input': [scen, sd, 0], 'impl': o,
-                                          'detail': '%s: outcome [%s] (-7 = the process died, -8 / -9 = calls never returned)' % (what, o)})
-        res['coverage']['scenario_lane'] = {'scenario': scen, 'runs': n, 'failed': bad, 'what': what}
+        for kind, scen, what in lanes:
+            inp = os.path.join(root, 'build', 'run', '%s.scenario%d.in' % (prop.id, scen))
+            os.makedirs(os.path.dirname(inp), exist_ok=True)
+            seeds = [seed * 100 + i for i in range(n)]
+            open(inp, 'w').write(''.join('c19: %d %d 0\n' % (scen, sd) for sd in seeds))
+            try:
+                out = subprocess.run([os.path.join(root, 'build', 'harness'), 'c19', '-replay', inp], stdout=subprocess.PIPE, stderr=subprocess.DEVNULL,
+                                     timeout=180 * n).stdout.decode('utf-8', 'replace').strip().split('\n')
+            except subprocess.TimeoutExpired:
+                out = []
+            bad = 0
+            for i, sd in enumerate(seeds):
+                o = out[i].strip() if i < len(out) else '?'
+                if not o.startswith('1'):
+                    bad += 1
+                    res['violations'].append({'entry': 'c19', 'kind': kind, 'input': [scen, sd, 0], 'impl': o,
+                                              'detail': '%s: outcome [%s] (0 = the property failed, -7 = the process died, -8 / -9 = calls never returned)' % (what, o)})
+            res['coverage']['scenario_lanes'].append({'scenario': scen, 'runs': n, 'failed': bad, 'what': what})
         return res
     return f
 
@@ -81,15 +83,23 @@ def m1prop(pid, props_file, prefixes, quick=300, thorough=6000, extra=None, spec
                 trusted=M1_TRUSTED, assumptions=M1_ASSUME, rule=M1_RULE, design_ref='5 ' + pid, confirm_slow=True,
                 monitor_prefixes=prefixes, search_n=3000, harness_timeout=1200, extra=extra)
 
-PROPS['C01'] = m1prop('C01', 'theories/Props/C01.v', ['C01', 'panic', 'hang'])
-PROPS['C02'] = m1prop('C02', 'theories/Props/C02.v', ['C02'])
+PROPS['C01'] = m1prop('C01', 'theories/Props/C01.v', ['C01', 'panic', 'hang'],
+                      extra=scenario_extra(('C01-callback-registration-not-atomic', 8, 'gated: two concurrent senders on one charge point, the first held inside the request queue and then refused; its callback must never run, the other sender gets its own reply')))
+PROPS['C02'] = m1prop('C02', 'theories/Props/C02.v', ['C02'],
+                      extra=scenario_extra(('C02-outstanding-written-twice', 10, 'gated: the connection drops while the dispatcher is inside ws.Client.Write (the write succeeds); after the reconnection another request is queued: still one outstanding CALL, written once')))
 PROPS['C07'] = m1prop('C07', 'theories/Props/C07.v', ['C07', 'hang', 'panic'],
-                      extra=scenario_extra('C07-senders-vs-disconnect-deadlock', 6, 'real sockets: 4 goroutines keep sending on a charge point while the central system drops its connection 12 times; every send and the final Stop must return (F30)'))
+                      extra=scenario_extra(('C07-senders-vs-disconnect-deadlock', 6, 'real sockets: 4 goroutines keep sending on a charge point while the central system drops its connection 12 times; every send and the final Stop must return (F30)'),
+                                            ('C07-resume-blocks-pump', 9, 'gated: a write fails and the pump sits in the application cancel callback while the connection drops and comes back; Resume must not block the pump, the endpoint keeps working')))
 PROPS['C09'] = m1prop('C09', 'theories/Props/C09.v', ['C09'])
-PROPS['C10'] = m1prop('C10', 'theories/Props/C10.v', ['C10'])
-PROPS['C11'] = m1prop('C11', 'theories/Props/C11.v', ['C11'])
+PROPS['C10'] = m1prop('C10', 'theories/Props/C10.v', ['C10'],
+                      extra=scenario_extra(('C10-rewritten-after-reconnect', 10, 'gated: the connection drops while the dispatcher is inside ws.Client.Write (the write succeeds); after the reconnection another request is queued: the outstanding request is not written again')))
+PROPS['C11'] = Prop('C11', harness='c11', entries=['c11rt', 'm1c', 'm1c_h', 'm1c_fresh', 'm1s'], props_file='theories/Props/C11.v', quick_n=300, thorough_n=6000,
+                    trusted=M1_TRUSTED + ['real-time lane c11rt: wall-clock trace of writes and conclusions, judged by the Coq-proved timing monitor of C08'],
+                    assumptions=M1_ASSUME, rule='real-time lane: server endpoints of both versions, a request outstanding when the session ends, the same id reconnects, a new request must get its own full timeout (2 runs per version, thorough 10); ' + M1_RULE,
+                    design_ref='5 C11', confirm_slow=True, monitor_prefixes=['C11'], spec_entries=['c11rt'], search_n=3000, harness_timeout=1200,
+                    extra=scenario_extra(('C11-stale-pending-after-session-end', 7, 'bare ocppj.Server without an application disconnect handler: a session ends with a request outstanding, the same id reconnects, the reply to the new session\'s first request must be accepted')))
 PROPS['C16'] = m1prop('C16', 'theories/Props/C16.v', ['C16', 'panic'], spec_entries=['m1c_fresh'],
-                      extra=scenario_extra('C16-send-racing-stop', 5, 'real sockets: 4 goroutines send on a charge point while Stop is called, 40 rounds; nothing may crash or block (F10)'))
+                      extra=scenario_extra(('C16-send-racing-stop', 5, 'real sockets: 4 goroutines send on a charge point while Stop is called, 40 rounds; nothing may crash or block (F10)')))
 
 M1_NOTE = 'Trusted: Coq kernel + vm_compute, extraction (ExtrOcamlBasic only), the Go harness with its ws doubles and quiescence detector, the hand-written LTS. Interleavings finer than one handler / one pump iteration are not in this model (DESIGN.md section 8).'
 MANIFEST_TEXT['C01'] = dict(
